@@ -185,6 +185,9 @@ theorem finish_rpage (L : Libs) (verify : Bool) (mode : Mode) (pre post : Bytes)
     simp only [a1, a2, a3]; decide
   rw [if_neg h3, if_neg h0, if_neg hsv]
   simp only [hp.crc, Bool.false_eq_true, if_false]
+  by_cases hemp : d.defs.length = 0
+  · rw [if_pos (by rw [hp.count, hemp]; rfl), hp.empty hemp, hcomp]
+  rw [if_neg (by rw [hp.count]; omega)]
   unfold stdPath
   simp only [hpd, hp.count, Int.toNat_natCast, hdec, hcomp]
 
@@ -357,15 +360,78 @@ theorem pagesBytes_cons (q : RPage × Decoded) (ps : List (RPage × Decoded)) :
 theorem pagesCount_cons (q : RPage × Decoded) (ps : List (RPage × Decoded)) :
     pagesCount (q :: ps) = q.2.defs.length + pagesCount ps := by simp [pagesCount]
 
+/-- The items of a list the page iteration gets to: it stops as soon as nothing is left to deliver, so
+items without content at the END of the list (empty data pages behind the last value of a chunk, F63)
+are never looked at. -/
+def liveBy {α : Type} (size : α → Nat) : List α → List α
+  | [] => []
+  | a :: r => if size a + (r.map size).sum = 0 then [] else a :: liveBy size r
+
+theorem liveBy_map {α β : Type} (sa : α → Nat) (sb : β → Nat) (f : α → β) (h : ∀ a, sb (f a) = sa a) :
+    ∀ l : List α, liveBy sb (l.map f) = (liveBy sa l).map f
+  | [] => rfl
+  | a :: r => by
+    simp only [List.map_cons, liveBy, h a, List.map_map]
+    have : (sb ∘ f) = sa := funext h
+    rw [this]
+    split
+    · rfl
+    · rw [List.map_cons, liveBy_map sa sb f h r]
+
+theorem liveBy_length_le {α : Type} (size : α → Nat) : ∀ l : List α, (liveBy size l).length ≤ l.length
+  | [] => Nat.le_refl _
+  | a :: r => by
+    simp only [liveBy]
+    split
+    · simp
+    · simp only [List.length_cons]; have := liveBy_length_le size r; omega
+
+theorem liveBy_mem {α : Type} (size : α → Nat) : ∀ (l : List α) (x : α), x ∈ liveBy size l → x ∈ l
+  | [], x, h => by cases h
+  | a :: r, x, h => by
+    simp only [liveBy] at h
+    split at h
+    · cases h
+    · rcases List.mem_cons.mp h with rfl | h'
+      · simp
+      · exact List.mem_cons_of_mem _ (liveBy_mem size r x h')
+
+theorem flatten_nil_of_sum {β : Type} : ∀ l : List (List β), (l.map List.length).sum = 0 → l.flatten = []
+  | [], _ => rfl
+  | p :: r, h => by
+    simp only [List.map_cons, List.sum_cons] at h
+    have hp : p = [] := List.eq_nil_of_length_eq_zero (by omega)
+    rw [List.flatten_cons, hp, flatten_nil_of_sum r (by omega)]; rfl
+
+/-- the parts that are dropped hold nothing -/
+theorem liveBy_flatten {β : Type} : ∀ l : List (List β), (liveBy List.length l).flatten = l.flatten
+  | [] => rfl
+  | p :: r => by
+    simp only [liveBy]
+    split
+    · rename_i h0
+      have := flatten_nil_of_sum (p :: r) (by simpa using h0)
+      rw [this]; rfl
+    · rw [List.flatten_cons, List.flatten_cons, liveBy_flatten r]
+
+/-- the data pages the iteration loads -/
+def livePages (ps : List (RPage × Decoded)) : List (RPage × Decoded) := liveBy (fun q => q.2.defs.length) ps
+
+theorem livePages_cons (q : RPage × Decoded) (rest : List (RPage × Decoded)) :
+    livePages (q :: rest) = if pagesCount (q :: rest) = 0 then [] else q :: livePages rest := by
+  simp only [livePages, liveBy, pagesCount, List.map_cons, List.sum_cons]
+
 /-- **page iteration, dictionary business settled**: from a state that points at the first of the pages,
-with as many values remaining as they hold, the iteration delivers exactly these pages -/
+with as many values remaining as they hold, the iteration delivers exactly these pages — empty pages
+(F63) included, up to the page that delivers the chunk's last value -/
 theorem chunkPages_steady (L : Libs) (verify : Bool) (mode : Mode) (c : Col) (dict : Option Dict) (hcol : ColValid c) :
     ∀ (ps : List (RPage × Decoded)) (pre post : Bytes) (st : PState) (fuel : Nat),
-      (∀ q ∈ ps, DataPageOk L verify mode c dict q.1 q.2 ∧ q.2.defs ≠ []) → ps.length < fuel → 8 ≤ post.length →
+      (∀ q ∈ ps, DataPageOk L verify mode c dict q.1 q.2) → ps.length < fuel → 8 ≤ post.length →
       (pre ++ pagesBytes ps ++ post).length < 2 ^ 64 →
       st.dict = dict → (c.cm.dictionaryPageOffset = none ∨ st.dict.isSome = true) →
       st.dataStart + st.currentPage = (pre.length : Int) → st.valuesRemaining = (pagesCount ps : Int) →
-      chunkPages Fixes.all L verify mode (pre ++ pagesBytes ps ++ post) c fuel st = ps.map (fun q => some (cursorPage q.2)) := by
+      chunkPages Fixes.all L verify mode (pre ++ pagesBytes ps ++ post) c fuel st =
+        (livePages ps).map (fun q => some (cursorPage q.2)) := by
   intro ps
   induction ps with
   | nil =>
@@ -381,8 +447,15 @@ theorem chunkPages_steady (L : Libs) (verify : Bool) (mode : Mode) (c : Col) (di
     cases fuel with
     | zero => omega
     | succ fuel =>
-      obtain ⟨hq, hne⟩ := hall q (by simp)
-      have hpos : 0 < q.2.defs.length := List.length_pos_iff.mpr hne
+      rw [livePages_cons]
+      by_cases hzero : pagesCount (q :: rest) = 0
+      · rw [if_pos hzero]
+        unfold chunkPages
+        rw [if_pos (by rw [hrem, hzero]; simp)]
+        rfl
+      rw [if_neg hzero]
+      have hpos : 0 < pagesCount (q :: rest) := by omega
+      have hq := hall q (by simp)
       have hbytes : pre ++ pagesBytes (q :: rest) ++ post = pre ++ q.1.bytes ++ (pagesBytes rest ++ post) := by
         rw [pagesBytes_cons]; simp [List.append_assoc]
       rw [hbytes] at hsz ⊢
@@ -392,7 +465,7 @@ theorem chunkPages_steady (L : Libs) (verify : Bool) (mode : Mode) (c : Col) (di
         (by rw [hrem]; omega) hcol (by simp only [List.length_append]; omega) hsz
       obtain ⟨pl, hpl, hpage, hhs, hcs⟩ := ok_of_proj hl1
       unfold chunkPages
-      rw [if_neg (by rw [hrem]; omega), hpl]
+      rw [if_neg (by rw [hrem]; rw [pagesCount_cons] at hpos; omega), hpl]
       simp only [List.map_cons]
       congr 1
       · rw [hpage]; rfl
@@ -427,12 +500,12 @@ iteration started by `get_column` delivers exactly the data pages, decoded, in o
 theorem chunkPages_chunk (L : Libs) (verify : Bool) (mode : Mode) (c : Col) (hcol : ColValid c)
     (dictP : Option (RPage × Dict)) (ps : List (RPage × Decoded)) (pre post : Bytes)
     (hstart : ChunkStart L verify mode c pre dictP)
-    (hall : ∀ q ∈ ps, DataPageOk L verify mode c (dictP.map (·.2)) q.1 q.2 ∧ q.2.defs ≠ [])
+    (hall : ∀ q ∈ ps, DataPageOk L verify mode c (dictP.map (·.2)) q.1 q.2)
     (hnv : c.cm.numValues = (pagesCount ps : Int)) (hpost : 8 ≤ post.length)
     (hsz : (pre ++ dictBytes dictP ++ pagesBytes ps ++ post).length < 2 ^ 64)
     (fuel : Nat) (hf : ps.length < fuel) :
     chunkPages Fixes.all L verify mode (pre ++ dictBytes dictP ++ pagesBytes ps ++ post) c fuel (PState.init c) =
-      ps.map (fun q => some (cursorPage q.2)) := by
+      (livePages ps).map (fun q => some (cursorPage q.2)) := by
   cases hstart with
   | plain hno hdo =>
     simp only [dictBytes, List.append_nil] at hsz ⊢
@@ -451,8 +524,16 @@ theorem chunkPages_chunk (L : Libs) (verify : Bool) (mode : Mode) (c : Col) (hco
       cases fuel with
       | zero => omega
       | succ fuel =>
-        obtain ⟨hq, hne⟩ := hall q (by simp)
-        have hpos : 0 < q.2.defs.length := List.length_pos_iff.mpr hne
+        rw [livePages_cons]
+        by_cases hzero : pagesCount (q :: rest) = 0
+        · rw [if_pos hzero]
+          unfold chunkPages
+          rw [if_pos (by simp [PState.init, hnv, hzero])]
+          rfl
+        rw [if_neg hzero]
+        have hpos : 0 < pagesCount (q :: rest) := by omega
+        rw [pagesCount_cons] at hpos
+        have hq := hall q (by simp)
         simp only [dictBytes] at hsz ⊢
         have hbytes : pre ++ dp.bytes ++ pagesBytes (q :: rest) ++ post = pre ++ dp.bytes ++ q.1.bytes ++ (pagesBytes rest ++ post) := by
           rw [pagesBytes_cons]; simp [List.append_assoc]
@@ -491,8 +572,16 @@ theorem chunkPages_chunk (L : Libs) (verify : Bool) (mode : Mode) (c : Col) (hco
       cases fuel with
       | zero => omega
       | succ fuel =>
-        obtain ⟨hq, hne⟩ := hall q (by simp)
-        have hpos : 0 < q.2.defs.length := List.length_pos_iff.mpr hne
+        rw [livePages_cons]
+        by_cases hzero : pagesCount (q :: rest) = 0
+        · rw [if_pos hzero]
+          unfold chunkPages
+          rw [if_pos (by simp [PState.init, hnv, hzero])]
+          rfl
+        rw [if_neg hzero]
+        have hpos : 0 < pagesCount (q :: rest) := by omega
+        rw [pagesCount_cons] at hpos
+        have hq := hall q (by simp)
         simp only [dictBytes] at hsz ⊢
         have hbytes : pre ++ dp.bytes ++ pagesBytes (q :: rest) ++ post = pre ++ dp.bytes ++ q.1.bytes ++ (pagesBytes rest ++ post) := by
           rw [pagesBytes_cons]; simp [List.append_assoc]
